@@ -620,6 +620,14 @@ func (p *InlineParser) parseBackslash(state *inlineState, start int) (end int) {
 			// Hard line breaks not permitted at end of block.
 			newNode.kind = TextKind
 		} else {
+			// The line ending is part of the hard line break
+			// (otherwise it would be a soft line break of its own after the hard one).
+			if newNode.span.End < state.spanEnd() && state.source[newNode.span.End] == '\r' {
+				newNode.span.End++
+			}
+			if newNode.span.End < state.spanEnd() && state.source[newNode.span.End] == '\n' {
+				newNode.span.End++
+			}
 			// Leading spaces at the beginning of the next line are ignored.
 			state.ignoreNextIndent = true
 		}
